@@ -629,6 +629,30 @@ class C02Plan(RunPlan):
         return {"late_imports": list(ALL_MODULES), "faults": True}
 
 
+class C15Plan(RunPlan):
+    prop = "C15"
+    engine = "A"
+    quick_runs = 2500
+    thorough_runs = 150000
+    rule = ("one evaluation = one simulated history (<=60 ops): values drawn from the pools (registered and freshly "
+            "defined units, compounds, prefixed units, prefixes, dimensions, quantities with int/float/Decimal "
+            "magnitudes) are round-tripped in-world through pickle protocols 2-5, copy, deepcopy, the JSON codec "
+            "(explicit classes, codecs_installed() nested, install()/uninstall()), and dumped to blobs (pickle, JSON, "
+            "SQL composite form) that are loaded later - after aliases, further definitions and cache evictions, and "
+            "in ~1/3 of the runs after a process restart (F5): a second world forked from the template replays only "
+            "the definitions, decodes the blobs BEFORE rebuilding the same expressions, and both must be one object. "
+            "Oracle: identity (is) for dimension/prefix/unit with names/symbols unchanged, equal value and magnitude "
+            "type for quantities (identical unit object for pickle/copy), codec global state restored, normal-form "
+            "identity table across load and rebuild. Non-trivial = >=1 round trip or load checked.")
+
+    def params(self, tier):
+        return {"late_imports": list(ALL_MODULES), "faults": True}
+
+    def nontrivial(self, r):
+        c = r.get("counters", {})
+        return c.get("C15.roundtrip.checked", 0) + c.get("C15.load.checked", 0) > 0
+
+
 class C09Plan(RunPlan):
     prop = "C09"
     engine = "BOOT"
@@ -729,4 +753,4 @@ class C09Plan(RunPlan):
 
 
 PLANS = {"C20": C20Plan, "C19": C19Plan, "C08": C08Plan, "C04": C04Plan, "C05": C05Plan, "C07": C07Plan,
-         "C09": C09Plan, "C02": C02Plan}
+         "C09": C09Plan, "C02": C02Plan, "C15": C15Plan}
